@@ -71,7 +71,7 @@ ENGINES = {
         repo=['crypto/crypto_entropy.c', 'util/entropy.c', 'alg/sha256.c', 'util/insecure_memzero.c',
               'util/warnp.c', 'crypto/crypto_dh.c', 'crypto/crypto_dh_group14.c'],
         inc=['crypto', 'util', 'alg', 'cpusupport', '.'],
-        wrap=['open', 'read', 'close'] + ALLOC_WRAPS,
+        wrap=['open', 'read', 'close', 'crypto_entropy_read'] + ALLOC_WRAPS,
         libs=['-lcrypto'],
         props=['C10', 'C11', 'C20'],
         real='crypto_entropy.c entropy.c sha256.c crypto_dh.c crypto_dh_group14.c insecure_memzero.c, libcrypto BN',
